@@ -295,6 +295,10 @@ def gen_bad_op(rng, tree: TreeModel):
         return ["mkfile", "nosuchdir/zz.py"]  # missing parent
     if r < 0.9:
         return ["edit", "nosuchfile.py", "x = 1\n"]
+    if r < 0.95 and files:
+        # a file moved to a folder that does not exist (refused; nothing may be left behind)
+        src = rng.choice(files)
+        return ["move", src, "nosuchdir/deeper/" + src.rsplit("/", 1)[-1], "f", False]
     return ["move", "nosuchsrc.py", "moved.py", "f", False]
 
 
@@ -367,6 +371,11 @@ def gen_changeset(rng, tree: TreeModel, classes, swarm, ident, max_ops=None, all
         op = ["mkfile", _fresh_name(rng, t, "", NAMES, ".py")]
         t.apply(op)
         ops.append(op)
+    if not failed and rng.random() < swarm.get("idle_nest_p", 0.05):
+        # a part of the composite that turned out to need nothing (e.g. "tidy every module",
+        # one child set per module): an empty nested set, or one holding only an empty set
+        idle = ["set", "idle%d" % ident, [] if rng.random() < 0.7 else [["set", "idle-inner%d" % ident, []]]]
+        ops.insert(rng.randint(0, len(ops)), idle)
     if not failed and not allow_bad and rng.random() < swarm.get("ignored_p", 0.0):
         # an ordinary change set that also touches an ignored resource (recorded like any other);
         # the name is unique to this change set so it cannot collide with unmodelled ignored files
